@@ -448,6 +448,115 @@ func TestVerifC18Mutex(t *testing.T) {
 			return
 		}
 
+		// ------------------------------------------------------------------ part 1b
+		// One member, one Mutex object, request timeout tau: A holds for up to 4 x tau, B asks while A
+		// holds, C asks as soon as B is back (with an error, if local waiters honour the timeout, or
+		// after having held the lock). Whatever the waiters' fate, never two holders.
+		part1b := func() (abandon bool) {
+			if c.SameTimeoutMs == 0 {
+				return false
+			}
+			tau := time.Duration(c.SameTimeoutMs) * time.Millisecond
+			m := newMutex(c.SameMember)
+			setTO(m, 30*time.Second)
+			if r := vfLockWithin(m, 60*time.Second); !r.done || r.err != nil {
+				if r.done && vfTimeoutLike(r.err) {
+					vf.Class("case-abandoned-holder-timed-out")
+					return true
+				}
+				rt.Fatalf("VF-INCONCLUSIVE uncontended Lock() did not succeed: done=%v err=%v", r.done, r.err)
+			}
+			atomic.AddInt32(&holders, 1)
+			setTO(m, tau) // A holds; nobody else uses the object yet
+			var (
+				bmu     sync.Mutex
+				overlap string
+				errs    = map[string]error{}
+			)
+			enter := func(who string) {
+				if n := atomic.AddInt32(&holders, 1); n != 1 {
+					bmu.Lock()
+					if overlap == "" {
+						overlap = fmt.Sprintf("%s entered the critical section while %d other holder(s) were inside", who, n-1)
+					}
+					bmu.Unlock()
+				}
+			}
+			leave := func(who string) {
+				if n := atomic.AddInt32(&holders, -1); n != 0 {
+					bmu.Lock()
+					if overlap == "" {
+						overlap = fmt.Sprintf("%s left the critical section while %d other holder(s) were inside", who, n)
+					}
+					bmu.Unlock()
+				}
+			}
+			waiter := func(who string) {
+				err := m.Lock()
+				bmu.Lock()
+				errs[who] = err
+				bmu.Unlock()
+				if err != nil {
+					return
+				}
+				enter(who)
+				time.Sleep(2 * time.Millisecond)
+				leave(who)
+				if uerr := m.Unlock(); uerr != nil {
+					bmu.Lock()
+					errs[who+"-unlock"] = uerr
+					bmu.Unlock()
+				}
+			}
+			bDone, cDone := make(chan struct{}), make(chan struct{})
+			go func() { defer close(bDone); waiter("B") }()
+			go func() { defer close(cDone); <-bDone; waiter("C") }()
+			select {
+			case <-cDone:
+			case <-time.After(4 * tau):
+			}
+			leave("A")
+			aerr := m.Unlock()
+			for _, ch := range []chan struct{}{bDone, cDone} {
+				select {
+				case <-ch:
+				case <-time.After(2 * time.Minute):
+					rt.Fatalf("VF-INCONCLUSIVE part 1b: a waiter is still blocked 2 minutes after the holder's Unlock (Unlock: %v)\n%s", aerr, c)
+				}
+			}
+			if errs["B"] != nil && vfTimeoutLike(errs["B"]) {
+				vf.Class("part1b-same-member-waiter-timed-out")
+			} else {
+				vf.Class("part1b-same-member-waiter-served-after-release")
+			}
+			if overlap != "" {
+				vf.Violation(rt, "two-holders-at-once", "part 1b, one Mutex object of m%d with request timeout %v: A held the lock (for up to %v); B: %v; C (started when B was back): %v; %s\nlock %s\n%s",
+					c.SameMember, tau, 4*tau, errs["B"], errs["C"], overlap, name, c)
+				return true
+			}
+			if aerr != nil || errs["B-unlock"] != nil || errs["C-unlock"] != nil {
+				vf.Class("ambiguous-unlock-error")
+				return true
+			}
+			keys, err := vfLockKeys(raw, name)
+			if err != nil {
+				rt.Fatalf("VF-INCONCLUSIVE cannot list lock keys: %v", err)
+			}
+			if len(keys) != 0 {
+				if errs["B"] != nil || errs["C"] != nil {
+					if vf.Violation(rt, vfLeakKey, "part 1b: all three goroutines of m%d are done (B: %v, C: %v) but its key stays in etcd: %v\n%s", c.SameMember, errs["B"], errs["C"], keys, c) {
+						return true
+					}
+				}
+				vf.Violation(rt, "lock-key-left-after-Unlock", "part 1b: every successful Lock was followed by a successful Unlock but etcd still holds %v\n%s", keys, c)
+				return true
+			}
+			return false
+		}
+		if part1b() {
+			return
+		}
+
 		// ------------------------------------------------------------------ part 2
 		mx := map[int]Mutex{}
 		generous := map[int]bool{} // members whose Mutex object keeps the 10 s default
@@ -465,6 +574,7 @@ func TestVerifC18Mutex(t *testing.T) {
 			overlap      string
 			abort        int32
 			waiting      int32
+			rmwVoid      int32
 			nAcquired    int64
 			nFailed      int64
 			nContended   int64
@@ -547,10 +657,8 @@ func TestVerifC18Mutex(t *testing.T) {
 							err = cl.Put(counterKey, strconv.Itoa(cur+1))
 						}
 						if err != nil {
-							mu.Lock()
-							inconclusive = fmt.Sprintf("counter access failed: %v", err)
-							mu.Unlock()
-							atomic.StoreInt32(&abort, 1)
+							// the write may or may not have been applied: the counter proves nothing in this case
+							atomic.StoreInt32(&rmwVoid, 1)
 						} else {
 							atomic.AddInt64(&nRMW, 1)
 						}
@@ -640,7 +748,10 @@ func TestVerifC18Mutex(t *testing.T) {
 			vf.Violation(rt, "lock-key-left-after-Unlock", "all goroutines are done (every successful Lock was followed by a successful Unlock) but etcd still holds %v\n%s", keys, c)
 			return
 		}
-		if nRMW > 0 {
+		if rmwVoid != 0 {
+			vf.Class("rmw-oracle-void-counter-access-failed")
+		}
+		if nRMW > 0 && rmwVoid == 0 {
 			ctx, cancel := vfRawCtx(20 * time.Second)
 			gr, err := raw.Get(ctx, counterKey)
 			cancel()
@@ -662,12 +773,16 @@ func TestVerifC18Mutex(t *testing.T) {
 		// at quiescence every participating member can acquire
 		for _, mi := range c.Members {
 			m := mx[mi]
-			if !vfLocalFree(m) {
+			if free, known := vfLocalFree(m); known && !free {
 				vf.Violation(rt, "local-lock-held-after-failed-Lock", "all goroutines are done but the Mutex object of m%d is still locked (failed Lock() calls of that member: %d)\n%s", mi, failedBy[mi], c)
 				return
 			}
-			m.(*mutex).timeout = 30 * time.Second
-			if r := vfLockWithin(m, 60*time.Second); !r.done || r.err != nil {
+			setTO(m, 30*time.Second)
+			r := vfLockWithin(m, 60*time.Second)
+			for try := 0; memberMode && r.done && r.err != nil && vfTimeoutLike(r.err) && try < 10; try++ {
+				r = vfLockWithin(m, 60*time.Second)
+			}
+			if !r.done || r.err != nil {
 				rt.Fatalf("VF-INCONCLUSIVE Lock() on the free lock did not succeed: done=%v err=%v", r.done, r.err)
 			}
 			if err := m.Unlock(); err != nil {
